@@ -109,6 +109,20 @@ Q(id='C17.exact', props=['C17'], cls='B', harness='c17_msa_compare.c', entry='h_
   trusted=[TRUST_MSG, 'qsort: insertion-sort stub calling the real comparator (contracts/stubs_qsort.h)', 'isalpha/toupper/strncmp/strnlen: CBMC library models'],
   assumptions=[A_NOFAIL, A_WRAP, A_FLOAT, 'bounded: 2-3 rows, widths 2-4, symbols {A,c,-,.}; alignments passed in FINAL state (finalise_alignment is covered by C01)'])
 
+def _c17_state_shapes(tier):
+    out = []
+    for n, w in ([(2, 2), (2, 3)] if tier == 'quick' else [(2, 2), (2, 3), (3, 2)]):
+        for rs, ts in ((1, 0), (0, 1), (1, 1)):
+            out.append(dict(name='n%d_w%d_r%d_t%d' % (n, w, rs, ts), defs=dict(KV_N=n, KV_WR=w, KV_WT=w, KV_W=w, KV_RSTATE=rs, KV_TSTATE=ts)))
+    return out
+Q(id='C17.exact.states', props=['C17'], cls='B', harness='c17_msa_compare.c', entry='h_c17_exact', shapes=_c17_state_shapes,
+  mode='wrap', unwind=12, timeout=1200, loops_files=['msa_op.finalise.loops'], shrink=True,
+  funcs=['kalign_msa_compare', 'finalise_alignment', 'make_linear_sequence', 'compare_pair', 'kalign_check_msa', 'kalign_sort_msa', 'sort_by_both', 'GCGchecksum'],
+  srcs=['lib/src/msa_check.c', 'lib/src/msa_op.c', 'lib/src/msa_alloc.c', 'lib/src/alphabet.c'],
+  native_srcs=['lib/src/tldevel.c', 'lib/src/msa_check.c', 'lib/src/msa_op.c', 'lib/src/msa_alloc.c', 'lib/src/alphabet.c'],
+  trusted=[TRUST_MSG, 'qsort: insertion-sort stub calling the real comparator (contracts/stubs_qsort.h)', 'isalpha/toupper/strncmp/strnlen: CBMC library models',
+           'identity substitution of the row width in finalise_alignment (contracts/msa_op.finalise.loops)'],
+  assumptions=[A_NOFAIL, A_WRAP, A_FLOAT, 'bounded: 2-3 rows, width 2-3 (both alignments the same width), symbols {A,c,-,.}; the reference and / or the test alignment handed over in the form a file reader returns (residues + gap counts, status ALIGNED)'])
 # =========================================================================== C11
 for _mm, _tier, _to in ((16, 'quick', 900), (63, 'thorough', 3600)):
     Q(id='C11.bpm.m%d' % _mm, props=['C11'], cls='P', harness='c11_bpm.c', entry='h_c11_bpm', tier=_tier,
@@ -520,22 +534,24 @@ def _writer_shapes(tier):
         for fmt in (0, 1, 2):
             for prot in ((0, 1) if fmt == 2 else (0,)):
                 uw = max(70, w + 10, 30)
-                d = dict(KV_N=n, KV_W=w, KV_NAMELENS='{' + ','.join(map(str, nl)) + '}', KV_FMT=fmt, KV_PROT=prot)
+                d = dict(KV_N=n, KV_W=w, KV_NAMELENS='{' + ','.join(map(str, nl)) + '}', KV_FMT=fmt, KV_PROT=prot, KV_LINELEN=256)
                 if w >= 16:
                     d['KV_FREE'] = 4
                 out.append(dict(name='n%d_w%d_names%s_fmt%d_prot%d' % (n, w, ''.join(map(str, nl)), fmt, prot), defs=d, unwind=uw))
+    # (a shape that writes MSF to a file with an 83-character name, so that the description line outgrows a shrunk line buffer and is
+    #  re-allocated, was built for seed C15_c: -DKV_LONGOUT -DKV_LINELEN=100; it exhausts 40 GB and is not registered)
     return out
 WRITER_SRCS = ['lib/src/msa_alloc.c', 'lib/src/msa_op.c', 'lib/src/msa_misc.c', 'lib/src/alphabet.c', 'lib/src/tlmisc.c']
 Q(id='C15.writers', props=['C15', 'C06', 'C01'], cls='B', harness='c15_writers.c', entry='h_c15_write', shapes=_writer_shapes,
-  mode='wrap', timeout=1200, loops_files=['msa_alloc.shrink.loops', 'msa_io.shrink.loops', 'msa_io.lines.shrink.loops'], shrink=True,
+  mode='wrap', timeout=1200, loops_files=['msa_alloc.shrink.loops', 'msa_io.shrink.loops', 'msa_io.lines.shrink.loops', 'msa_io.linelen.shrink.loops'], shrink=True,
   defs=['-DKV_CAP=2', '-DKV_SEQCAP=2', '-DKV_LCAP=24', '-DKV_OUTMAX=1400'], object_bits=10,
-  unwindset={'kv_puts.0': 402, 'sb_puts.0': 402, 'expect_str.0': 302, 'kv_streq.0': 82, 'strnlen.0': 258, 'kv_fprintf.0': 102},
+  unwindset={'kv_puts.0': 402, 'sb_puts.0': 402, 'expect_str.0': 302, 'kv_streq.0': 82, 'strnlen.0': 258, 'kv_fprintf.0': 142, 'tlfilename.4': 100, 'strlen.0': 100},
   funcs=['kalign_write_msa', 'parse_format_argument', 'write_msa_fasta', 'write_msa_clu', 'write_msa_msf', 'alloc_line_buffer', 'resize_line_buffer', 'free_line_buffer',
          'sort_out_lines', 'GCGchecksum', 'GCGMultchecksum'],
   srcs=WRITER_SRCS, native_srcs=['lib/src/tldevel.c', 'lib/src/esl_stopwatch.c'] + WRITER_SRCS,
   trusted=[TRUST_MSG, 'stdio capture stubs (contracts/stubs_io.h): fprintf/snprintf for exactly the formats the writers use, fopen/fclose/time/localtime_r/strftime trivial',
-           'qsort insertion-sort stub', 'realloc byte-copy stub', 'R3 capacity shrink (line table 1024 -> 24 lines: no growth of the line table occurs in these shapes, resize_line_buffer is not exercised; record growth 512 -> 2)'],
-  assumptions=[A_NOFAIL, A_WRAP, 'bounded: 2-3 rows, widths 1,3,60,61 (thorough 59,120,121), concrete names of 1-3 (10) characters over [A-Za-z0-9_.|-], row bytes symbolic from {-,A,c,N} (wide shapes: only the last 4 columns symbolic); output to stdout (outfile == NULL)'])
+           'qsort insertion-sort stub', 'realloc byte-copy stub', 'R3 capacity shrink (line table 1024 -> 24 lines: no growth of the line table occurs in these shapes, resize_line_buffer is not exercised; record growth 512 -> 2; minimal line buffer 256 -> 100 bytes in the *_longout shape only)'],
+  assumptions=[A_NOFAIL, A_WRAP, 'bounded: 2-3 rows, widths 1,3,60,61 (thorough 59,120,121), concrete names of 1-3 (10) characters over [A-Za-z0-9_.|-], row bytes symbolic from {-,A,c,N} (wide shapes: only the last 4 columns symbolic); output to stdout (outfile == NULL); the re-allocation path of an MSF description line longer than the line buffer is NOT exercised'])
 PROPS['C15'] = dict(
     level='other',
     level_text=('the three writers are run on symbolic finalised alignments with stdio captured; the captured bytes are checked against the format rules of the property (60-column wrapping, header lines, blocks with every sequence once, in order) '
@@ -566,6 +582,8 @@ def _reader_shapes(tier):
                         unwind=(18 if fmt == 1 else 12 + n + ((w + blk - 1) // blk) * (n + 2))))
     # blocks separated by a line of blanks instead of an empty line
     out.append(dict(name='n2_w3_block2_fmt1_wssep', defs=dict(KV_N=2, KV_W=3, KV_BLOCK=2, KV_FMT=1, KV_WSSEP=1), unwind=18))
+    # the file starts with an empty line
+    out.append(dict(name='n2_w2_block2_fmt1_leadblank', defs=dict(KV_N=2, KV_W=2, KV_BLOCK=2, KV_FMT=1, KV_LEADBLANK=1), unwind=18))
     return out
 Q(id='C06.readers', props=['C06', 'C04', 'C05'], cls='B', harness='c06_readers.c', entry='h_c06_readers', shapes=_reader_shapes,
   mode='wrap', timeout=1200, loops_files=['msa_alloc.shrink.loops', 'msa_io.shrink.loops'], shrink=True, leak_check=True,
@@ -578,11 +596,11 @@ Q(id='C06.readers', props=['C06', 'C04', 'C05'], cls='B', harness='c06_readers.c
 def _msf_reader_shapes(tier):
     out = []
     shapes = [(2, 2, 2, 0), (2, 3, 3, 0), (2, 2, 2, 1), (2, 2, 2, 2)] if tier == 'quick' else [(2, 2, 2, 0), (2, 3, 2, 0), (2, 3, 3, 0), (2, 2, 2, 1), (2, 2, 2, 2), (2, 3, 3, 2)]
-    shapes = shapes + [(2, 3, 2, 3)]          # 3: well-formed, blocks separated by a line of blanks
+    shapes = shapes + [(2, 3, 2, 3), (2, 2, 2, 4)]          # 3: well-formed, blocks separated by a line of blanks; 4: the file starts with an empty line
     for n, w, blk, hostile in shapes:
         nlines = 12 + n + ((w + blk - 1) // blk) * (n + 2 + (3 if hostile == 1 else 0))
-        out.append(dict(name='n%d_w%d_block%d_fmt2%s' % (n, w, blk, {0: '', 1: '_extrarows', 2: '_lenfirst', 3: '_wssep'}[hostile]),
-                        defs=dict(dict(KV_N=n, KV_W=w, KV_BLOCK=blk, KV_FMT=2, KV_NAMELEN=1, KV_HOSTILE=(0 if hostile == 3 else hostile), KV_CAP=4), **({'KV_WSSEP': 1} if hostile == 3 else {})), unwind=max(18, nlines)))
+        out.append(dict(name='n%d_w%d_block%d_fmt2%s' % (n, w, blk, {0: '', 1: '_extrarows', 2: '_lenfirst', 3: '_wssep', 4: '_leadblank'}[hostile]),
+                        defs=dict(dict(KV_N=n, KV_W=w, KV_BLOCK=blk, KV_FMT=2, KV_NAMELEN=1, KV_HOSTILE=(0 if hostile >= 3 else hostile), KV_CAP=4), **({'KV_WSSEP': 1} if hostile == 3 else ({'KV_LEADBLANK': 1} if hostile == 4 else {}))), unwind=max(18, nlines)))
     return out
 Q(id='C06.read_msf', props=['C06', 'C04', 'C05'], cls='B', harness='c06_readers.c', entry='h_c06_readers', shapes=_msf_reader_shapes,
   mode='wrap', timeout=1500, loops_files=['msa_alloc.shrink.loops', 'msa_io.shrink.loops', 'msa_io.msf.loops'], shrink=True, leak_check=True,
